@@ -5,6 +5,7 @@ import (
 	_ "verif/harness/checks/grpa"
 	_ "verif/harness/checks/grpb"
 	_ "verif/harness/checks/grpc"
+	_ "verif/harness/checks/grpc2"
 	_ "verif/harness/checks/grpd"
 	_ "verif/harness/checks/grpe"
 	_ "verif/harness/checks/sim"
